@@ -42,6 +42,8 @@ ZOO = {
     "expr_async_result": {"attrs": [("Given", "expr", "{word} is {float}")], "args": [S, "f64"], "async": True, "result": True},
     "stacked": {"attrs": [("Given", "lit", "stacked one"), ("When", "re", r"^stacked (\d+)?$"), ("Then", "lit", "stacked three")]},
     "re_slice_with_step": {"attrs": [("Then", "re", r"^slice with step (\w+) (\w+)$")], "slice": S, "step": True},
+    # an expression WITHOUT parameters is still an expression (optional text, alternation): not a literal
+    "expr_no_params": {"attrs": [("When", "expr", "there is/are (a )cucumber(s) in the basket")]},
 }
 
 
@@ -246,4 +248,51 @@ def _dom_rank(body, site):
     return sum(1 for _ in body.dom.get(site.bb, ()))
 
 
-RULES = [("R1", r1, ["default", "all"]), ("R2", r2, ["zoo:default"])]
+def r3(F, R):
+    """A parameter whose regex has several capturing groups is parsed from the FIRST non-empty group (documented
+    behaviour): every generated `fold(None, |acc, s| ..)` over a value's groups keeps an already chosen `acc` — decided on
+    the fold closure's deep path table."""
+    if "cucumber_verif_zoo" not in F.crates:
+        return
+    from . import deep as D
+    n = 0
+    for b in F.bodies.values():
+        if b.crate != "cucumber_verif_zoo":
+            continue
+        for s, t in b.calls(lambda t: callee_is(t, r"Iterator::fold$")):
+            kb = A.closure_of_operand(F, b, t["args"][2]) if len(t["args"]) > 2 else None
+            if kb is None or not kb.locals[0].startswith("std::option::Option<&"):
+                continue
+            n += 1
+            rows = D.Deep(F, kb, max_paths=200).run()
+            ok, why = bool(rows), ""
+            acc = ("arg", 2)
+            s_arg = ("arg", 3)
+            seen = set()
+            for p in rows:
+                a_out = [o for a, o in p.conds if a == ("discr", acc)]
+                if len(a_out) != 1:
+                    ok, why = False, "the fold does not look at the accumulator first"
+                    continue
+                if a_out[0] == "Some":
+                    seen.add("kept")
+                    if not (p.ret == acc or (D.is_variant(p.ret, "std::option::Option", "Some") and p.ret[3][0] == ("field", ("as", acc, "Some"), 0))):
+                        ok, why = False, "an already chosen group is replaced by a later one (the LAST non-empty group wins)"
+                else:
+                    empt = [o for a, o in p.conds if a[0] == "call" and re.search(r"str::is_empty$|::is_empty$", a[1])]
+                    if empt == [False]:
+                        seen.add("taken")
+                        if not (D.is_variant(p.ret, "std::option::Option", "Some") and D.mentions(p.ret, lambda x: x == s_arg)):
+                            ok, why = False, "a non-empty group is not taken when nothing was chosen yet"
+                    elif empt == [True]:
+                        seen.add("skipped")
+                        if not D.is_variant(p.ret, "std::option::Option", "None"):
+                            ok, why = False, "an empty group is taken"
+                    else:
+                        ok, why = False, "the fold does not test the group for emptiness"
+            ok = ok and seen == {"kept", "taken", "skipped"}
+            R.check(ok, f"first-non-empty-group/{F.root_fn(b).short[-40:]}", s, "acc.or_else(|| (!s.is_empty()).then_some(s))", why or f"fold cases seen: {sorted(seen)}")
+    R.floor(8)
+
+
+RULES = [("R1", r1, ["default", "all"]), ("R2", r2, ["zoo:default"]), ("R3", r3, ["zoo:default"])]
